@@ -35,6 +35,7 @@ META = {
     "rule": "case = comparison kind (10 compare ops, truthiness, exception match, auxiliary `key in container` before a subscript) + operand recipes drawn from numeric edges "
             "(|x|>2**53, >1e308, NaN, inf, -0.0, subnormal, Decimal/Fraction/complex), str/bytes, nested containers, sets "
             "(partial order), one-shot iterators, ranges and logged user objects with partial/raising protocols; "
+            "each comparison also with the second operand being the very same object as the first; "
             "non-trivial = operands of different categories or at least one edge-class operand; distinct by (op, recipes)",
     "assumptions": ["the reference outcome of a comparison is bool(result of Python's operator), as consumed by the "
                     "conditional jump that follows the instrumented COMPARE_OP",
@@ -170,8 +171,21 @@ def _bool_values() -> st.SearchStrategy:
 def strategy(ctx) -> st.SearchStrategy:
     def case(kind: str, ops: list[str] | None, pairs: st.SearchStrategy) -> st.SearchStrategy:
         op = st.sampled_from(ops) if ops else st.just(kind.upper())
-        return st.tuples(op, pairs, st.booleans()).map(
-            lambda t: {"kind": kind, "op": t[0], "v1": t[1][0], "v2": t[1][1], "alias": bool(t[2] and kind == "cmp" and t[0] in IS_OPS)})
+        # "alias": the second operand is the very same live object as the first (x < x, x == x, x in x, x is x)
+        return st.tuples(op, pairs, st.integers(0, 5)).map(
+            lambda t: _mk(kind, t[0], t[1][0], t[1][1], kind == "cmp" and (t[2] == 0 or (t[2] <= 2 and t[0] in IS_OPS))))
+
+    def _mk(kind: str, op: str, v1: dict, v2: dict, alias: bool) -> dict:
+        return {"kind": kind, "op": op, "v1": v1, "v2": v1 if alias else v2, "alias": bool(alias)}
+
+    # one object on both sides, weighted towards values that are not equal to themselves
+    irreflexive = V.choice(
+        st.sampled_from([{"k": "float", "x": "nan"}, {"k": "decimal", "v": "NaN"}, {"k": "decimal", "v": "sNaN"},
+                         {"k": "complex", "re": "nan", "im": "0x0.0p+0"}, {"k": "complex", "re": "0x1.0p+0", "im": "nan"},
+                         {"k": "list", "items": [{"k": "float", "x": "nan"}]}, {"k": "tuple", "items": [{"k": "float", "x": "nan"}]}]),
+        V.objects("cmp"), V.objects("cmp"), V.objects("any"), V.numbers(), V.values(1))
+    same_object = st.tuples(st.sampled_from(ORDER_OPS + EQ_OPS + EQ_OPS + EQ_OPS + IN_OPS + IS_OPS), irreflexive).map(
+        lambda t: _mk("cmp", t[0], t[1], t[1], True))
 
     cmp_ops = ORDER_OPS + EQ_OPS
     return V.choice(
@@ -189,6 +203,7 @@ def strategy(ctx) -> st.SearchStrategy:
         _bool_values().map(lambda v: {"kind": "bool", "op": "BOOL", "v1": v, "v2": {"k": "none"}, "alias": False}),
         case("exc", ["EXC_MATCH"], _exc_pairs()),
         case("subscr", ["SUBSCR_IN"], _subscr_pairs()),
+        same_object,
     )
 
 
@@ -298,6 +313,8 @@ def evaluate(case: dict[str, Any]) -> Outcome:
         ref_outcome = PYOPS[op](a2, b2)
 
     out.labels.append("ref:raises" if ref_exc is not None else f"ref:{ref_outcome}")
+    if case.get("alias"):
+        out.labels.append("same-object-operands")
     one_shot_in = op in IN_OPS and (r2["k"] in ("iter", "gen") or V.category(r2, "container") == "obj.iter-self")
 
     if disabled:
